@@ -155,4 +155,31 @@ theorem getMessageCore_typed_valid (crc : Bytes → Nat) (bs : Bytes) (m : Msg)
               | nil => simp at hne
               | cons a t => simpa using hd'
             · exact (checkCRC_iff crc _ (by omega)).mp hcrc'
+/-- Every delivered message is either typed (type ≥ 0) or the non-RTCM sentinel −1. -/
+theorem segmentS_typ (crc : Bytes → Nat) : ∀ (n : Nat) (st : Bytes), st.length = n →
+    ∀ m ∈ segmentS crc st, 0 ≤ m.typ ∨ m.typ = -1 := by
+  intro n
+  induction n using Nat.strongRecOn with
+  | _ n ih =>
+    intro st hn m hm
+    rw [segmentS] at hm
+    split at hm
+    · simp at hm
+    · rename_i raw rest hs
+      have hlt := scan_rest_lt.1 _ _ hs
+      simp only [List.mem_cons] at hm
+      rcases hm with rfl | hm
+      · right; rfl
+      · exact ih rest.length (by omega) rest rfl m hm
+    · rename_i f rest hs
+      have hlt := scan_rest_lt.2 _ _ hs
+      simp only [List.mem_cons] at hm
+      rcases hm with rfl | hm
+      · obtain ⟨_, _, hneg⟩ := msgOfFrame_scan crc hs
+        by_cases h0 : 0 ≤ (msgOfFrame crc f).typ
+        · exact Or.inl h0
+        · right
+          have := hneg (by omega)
+          rw [this]
+      · exact ih rest.length (by omega) rest rfl m hm
 end Ntrip
